@@ -441,6 +441,36 @@ Section Ident.
     unfold consistent_event_b, consistent_event. rewrite andb_true_iff, forward_ok_b_iff, reverse_ok_b_iff. tauto.
   Qed.
 
+  (* ---------------------------------------------------------------- issued = stored; reverse lookup = store *)
+  Lemma issued_event_b_iff (pre : trace) e : issued_event_b cfg pre e = true <-> issued_event cfg pre e.
+  Proof.
+    unfold issued_event_b, issued_event.
+    destruct (request_of cfg (e_op e)) as [[[[u f] s] q]|]; [|split; [intros _; intros; discriminate|reflexivity]].
+    destruct (e_out e) as [|n| | |]; try (split; [intros _; intros; discriminate|reflexivity]).
+    split.
+    - intros H u0 f0 s0 q0 n0 E1 E2. inversion E1; inversion E2; subst.
+      rewrite !andb_true_iff in H. destruct H as [[[H1 H2] H3] H4].
+      apply ostr_eqb_eq in H1. apply same_qb_iff in H2, H3.
+      repeat (split; [assumption|]).
+      destruct (txt n0) as [t|]; [|discriminate]. apply andb_true_iff in H4 as [H4 H5].
+      exists t. split; [reflexivity|]. split; [apply ostr_eqb_eq; exact H4|apply mem_In; exact H5].
+    - intros H. destruct (H u f s q n eq_refl eq_refl) as (H1 & H2 & H3 & t & Ht & Hl & Hin).
+      rewrite !andb_true_iff. repeat split.
+      + apply ostr_eqb_eq; exact H1.
+      + apply same_qb_iff; exact H2.
+      + apply same_qb_iff; exact H3.
+      + rewrite Ht. apply andb_true_iff. split; [apply ostr_eqb_eq; exact Hl|apply mem_In; exact Hin].
+  Qed.
+
+  Lemma findlocal_event_b_iff (pre : trace) e : findlocal_event_b pre e = true <-> findlocal_event pre e.
+  Proof.
+    unfold findlocal_event_b, findlocal_event.
+    destruct (e_op e) as [| | | | | | | | | | |m|]; try (split; [intros _; intros; discriminate|reflexivity]).
+    rewrite out_eqb_eq. split.
+    - intros H m0 E. inversion E; subst. exact H.
+    - intros H. apply H. reflexivity.
+  Qed.
+
   (* ---------------------------------------------------------------- the whole identifier spec *)
   Theorem ident_spec_b_iff tr : ident_spec_b cfg is_user tr = true <-> ident_spec cfg is_user tr.
   Proof.
@@ -449,7 +479,8 @@ Section Ident.
     rewrite (all_pairs_reflect _ _ tr stable_pair_b_iff), (all_pairs_reflect _ _ tr distinct_pair_b_iff),
       (all_pairs_reflect _ _ tr reverse_pair_b_iff), (all_events_reflect _ _ tr valued_event_b_iff),
       (all_events_reflect _ _ tr transient_event_b_iff), (all_events_reflect _ _ tr manage_event_b_iff),
-      (all_events_reflect _ _ tr consistent_event_b_iff).
+      (all_events_reflect _ _ tr consistent_event_b_iff), (all_events_reflect _ _ tr issued_event_b_iff),
+      (all_events_reflect _ _ tr findlocal_event_b_iff).
     pose proof (wf_b_iff tr) as Hw. destruct (wf_b cfg is_user tr).
     - split.
       + intros [H|H]; [discriminate|]. intros _. tauto.
